@@ -25,7 +25,7 @@ type Case struct {
 	HookSeed uint64     `json:"hook_seed,omitempty"` // seed of the engine's build-tag-guarded perturbation points (0 = off)
 }
 
-var pairs = [][2]int64{{3000, 1000}, {3000, 2000}, {5000, 2000}, {2000, 2000}, {2000, 5000}, {10000, 3000}, {1000, 250}, {60000, 20000}, {4000, 1000}, {1500, 500}}
+var pairs = [][2]int64{{3000, 1000}, {3000, 2000}, {5000, 2000}, {2000, 2000}, {2000, 5000}, {10000, 3000}, {1000, 250}, {60000, 20000}, {4000, 1000}, {1500, 500}, {7000, 3000}, {700, 137}, {13000, 13000}, {4096, 7000}}
 
 func genCase(t *rapid.T) Case {
 	p := rapid.SampledFrom(pairs).Draw(t, "pair")
